@@ -37,7 +37,7 @@ ASSUMPTIONS = [
     'vectors (it drops them by design)',
 ]
 ANCHORS = ['Table.__eq__', 'Table.descriptive_equality', 'Table._data_equality', 'Table._get_row', 'Table._get_col']
-REQUIRED = ['pairs_compared', 'cell_queries_on_fresh_layout', 'derived_vs_rebuilt', 'accessor_interleavings',
+REQUIRED = ['derived_exports_compared', 'pairs_compared', 'cell_queries_on_fresh_layout', 'derived_vs_rebuilt', 'accessor_interleavings',
             'single_difference_pairs', 'tiny_value_difference_pairs',
             'exports_compared_tsv', 'exports_compared_json',
             'exports_compared_hdf5', 'route_stored_zeros_input',
@@ -238,14 +238,26 @@ def derived_vs_rebuilt(ctx, r, spec, base, desc):
     content."""
     Table = ctx.biom.Table
     D = spec.D
-    cand = ['transform-zero', 'pa', 'filter', 'sort', 'merge-cancel']
+    cand = ['transform-zero', 'pa', 'filter', 'sort', 'merge-cancel',
+            'negate-obs', 'rename', 'add-metadata']
     if D.size and np.all(D >= 0) and np.all(D == np.floor(D)) and \
             D.max() < 1e6 and D.sum() > 0:
         cand += ['subsample', 'subsample', 'subsample-replace']
     how = r.choice(cand)
     t = base.copy()
+    # questions asked before the change must not colour the answers after it
+    asked = [accessor(r, t, base) for _ in range(r.randint(0, 3))]
     try:
-        if how == 'subsample':
+        if how == 'negate-obs':
+            t.transform(lambda v, i, m: -v, axis='observation')
+        elif how == 'rename':
+            ax = r.choice(['sample', 'observation'])
+            t.update_ids({i: 'n_%s' % i for i in t.ids(axis=ax)}, axis=ax)
+        elif how == 'add-metadata':
+            ax = r.choice(['sample', 'observation'])
+            t.add_metadata({i: {'added': k} for k, i in
+                            enumerate(t.ids(axis=ax))}, axis=ax)
+        elif how == 'subsample':
             tot = sorted(set(D.sum(axis=0).tolist()))
             n = max(1, int(r.choice(tot) // 2))
             t = t.subsample(n, seed=r.randrange(99))
@@ -280,7 +292,19 @@ def derived_vs_rebuilt(ctx, r, spec, base, desc):
                 None if not any(s0.obs_md) else copy.deepcopy(s0.obs_md),
                 None if not any(s0.samp_md) else copy.deepcopy(s0.samp_md),
                 type=s0.type)
-    ddesc = dict(desc, derived=how)
+    ddesc = dict(desc, derived=how, asked_before=asked)
+    # equal tables export the same (the rebuilt one was never asked anything)
+    if how != 'subsample-replace':
+        for nm, f in (('str', str), ('to_tsv', lambda x: x.to_tsv()),
+                      ('to_json-views', lambda x: export_views(ctx, x,
+                                                               '')[1])):
+            ea, eb = f(t), f(reb)
+            if ea != eb:
+                raise Violation('C16/derived-exports-differ/' + nm,
+                                'a table produced by %s (after %r) exports '
+                                '%r, the table rebuilt from its content %r; '
+                                'case=%r' % (how, asked, ea, eb, ddesc))
+        ctx.count('derived_exports_compared')
     for a, b in ((t, reb), (reb, t)):
         v1 = equal_verdicts(a, b)
         acc = accessor(r, a, b)
